@@ -119,7 +119,14 @@ fn smoke(store: &MemStore, key: &MasterKey, rng: &mut Rng) -> (String, String) {
 
 fn base_opts(which: u64) -> ConfigOptions {
     let mut c = ConfigOptions::default();
-    if which % 2 == 0 {
+    if which % 4 >= 2 {
+        // fixed-size chunking with sizes that content-defined chunking could not work with: a later change that
+        // only switches the chunker has to be judged against these stored values
+        c.set_chunker = Some(Chunker::FixedSize);
+        c.set_chunk_size = Some(ByteSize(if which % 4 == 2 { 1000 } else { 65536 }));
+        c.set_datapack_size = Some(ByteSize(3000));
+        c.set_treepack_size = Some(ByteSize(2000));
+    } else if which % 2 == 0 {
         c.set_extra_verify = Some(false);
         c.set_compression = Some(3);
         c.set_treepack_size = Some(ByteSize(2000));
